@@ -1152,6 +1152,12 @@ fn gen_octets(ctx: &GenCtx) -> Vec<Value> {
             plans.push(json!({"what":"seckey","key": key, "off": off}));
         }
     }
+    // secret key packets cut short (with the packet length repaired) at every length behind the public part
+    for key in ["ed25519-v4-locked", "ed25519-v6-locked", "ed25519-v4", "rsa-v4", "sublocked-v4", "primlocked-v6"] {
+        for pkt in [0usize, 1] {
+            plans.push(json!({"what":"seckey_cut","key": key, "pkt": pkt, "off": 0}));
+        }
+    }
     // leading octets of every packet of a signed+compressed message, a certificate, a signature
     // a message with two one-pass signers: the slots of the two signatures have to stay aligned whatever
     // one of the packets says
@@ -1178,6 +1184,60 @@ fn run_octets(plan: &Value, rec: &mut Rec) {
     // consumers of this check call a reader again after it returned an error
     seams::set_poke_after_error(true);
     let what = jstr(plan, "what");
+    if what == "seckey_cut" {
+        let k = keys::get(jstr(plan, "key"));
+        let Ok(stream) = k.secret.to_bytes() else { return };
+        let Ok(pk) = deframe(&stream) else { return };
+        // the secret key packets: primary (tag 5) and first subkey (tag 7)
+        let idx: Vec<usize> = pk.iter().enumerate().filter(|(_, p)| p.tag == 5 || p.tag == 7).map(|(i, _)| i).collect();
+        let Some(&pi) = idx.get(jusize(plan, "pkt")) else { return };
+        let p = &pk[pi];
+        let public_len = if p.tag == 5 { k.secret.primary_key.public_key().to_bytes().map(|b| b.len()).unwrap_or(0) } else { k.secret.secret_subkeys[0].key.public_key().to_bytes().map(|b| b.len()).unwrap_or(0) };
+        let cuts: Vec<usize> = match plan.get("only") {
+            Some(o) => vec![jusize(o, "len")],
+            None => (public_len..p.body.len()).collect(),
+        };
+        rec.sample(json!({"what": what, "key": k.name, "tag": p.tag, "cuts": cuts.len()}));
+        for len in cuts {
+            let mut out = Vec::new();
+            for (i, q) in pk.iter().enumerate() {
+                if i == pi {
+                    out.extend_from_slice(&frame(q.tag, &q.body[..len.min(q.body.len())], &LenForm::NewMinimal).unwrap());
+                } else {
+                    out.extend_from_slice(&stream[q.start..q.end]);
+                }
+            }
+            let mut h = Fnv::default();
+            h.str(&plan.to_string());
+            h.u64(len as u64);
+            rec.eval(h.0, true);
+            rec.count("fault:F-byz:secret-key-packet-cut-short");
+            let mut vplan = plan.clone();
+            vplan["only"] = json!({"len": len});
+            let bytes = Arc::new(out);
+            let r = guard(|| {
+                process("seckey", &bytes, false, &Opener::None, &Sched::Full, 8192, &[], &Consumer::ReadLoop(vec![300]), &[]);
+                // the packet on its own as well (certificate parsing may drop a damaged component)
+                for item in PacketParser::new(&bytes[..]).take(40).flatten() {
+                    match item {
+                        pgp::packet::Packet::SecretKey(sk) => {
+                            let _ = sk.unlock(&Password::from(keys::KEY_PW), |_, _| Ok(()));
+                            let _ = sk.to_bytes();
+                        }
+                        pgp::packet::Packet::SecretSubkey(sk) => {
+                            let _ = sk.unlock(&Password::from(keys::KEY_PW), |_, _| Ok(()));
+                            let _ = sk.to_bytes();
+                        }
+                        _ => {}
+                    }
+                }
+            });
+            if let Err(pn) = r {
+                rec.violation("panic", &norm_loc(&pn.loc), format!("secret key packet (tag {}) of {} cut to {len} of {} octets: {}", p.tag, k.name, p.body.len(), pn.msg), vplan);
+            }
+        }
+        return;
+    }
     let off = jusize(plan, "off");
     let vals: Vec<usize> = match plan.get("only") {
         Some(o) => vec![jusize(o, "val")],
